@@ -95,6 +95,7 @@ Inductive pc : Type :=
 | Fr4b (s : nat)       (* arena: next store_release(thread_id, me) *)
 | Rc1 (s : nat) (k : cont)   (* mi_segment_reclaim: next store_release(thread_id, me) *)
 | Rc2 (s : nat) (k : cont)   (* next: pages USE_DELAYED_FREE + collect; used == 0 -> free the segment *)
+| FrR (s : nat)        (* reclaimed on free: mi_free(block) again: next load thread_id (now local) *)
 | FrL (s : nat)        (* next: local free of the block *)
 | FrP (s : nat)        (* next: push on the page thread-free list (or heap delayed list) *)
 (* cursor *)
@@ -126,8 +127,10 @@ Record state : Type := mkS {
 
 (* locations and events: (thread, location, old value, new value) *)
 Inductive loc : Type :=
-| LTid (s : nat) | LBit (s : nat) | LList (s : nat) | LCount (sp : N) | LFlag (s : nat) | LTfree (s : nat)
+| LTid (s : nat) | LTidPlain (s : nat) | LBit (s : nat) | LList (s : nat) | LCount (sp : N) | LFlag (s : nat) | LTfree (s : nat)
 | LLock (sp : N) | LVLock (sp : N) | LBlock (s : nat) | LVisits (s : nat).
+(* LTidPlain: the plain assignment `segment->thread_id = 0` of mi_segment_abandon (not a mi_atomic_* call, so not seen
+   by the MI_VERIF_HOOKS step log; the store_release that follows it is, and shows old value 0) *)
 Definition event : Type := (nat * loc * Z * Z)%type.
 
 (* ---- helpers ---- *)
@@ -263,7 +266,7 @@ Definition exec (st : state) (t : nat) (th : thread) : option outcome :=
   | Ab1 s =>
     match nth_error (segs st) s with
     | Some g => Some (with_seg st th s (fun g => set_holder (set_visits (set_tid g 0) 1) (Some t)) (Ab2 s) false
-                        [(t, LTid s, ztid g, 0%Z); (t, LVisits s, Z.of_N (g_visits g), 1%Z)])
+                        [(t, LTidPlain s, ztid g, 0%Z); (t, LVisits s, Z.of_N (g_visits g), 1%Z)])
     | None => None
     end
   | Ab2 s =>
@@ -357,7 +360,12 @@ Definition exec (st : state) (t : nat) (th : thread) : option outcome :=
       if g_live g =? 0
       then Some (with_seg st th s (fun g => set_freed (set_blocks (set_flag g USE) 0 0 (g_delayed g))) Idle true ev)
       else Some (with_seg st th s (fun g => set_holder (set_blocks (set_flag g USE) (g_live g) 0 (g_delayed g)) None)
-                   (match k with KFree => FrL s | KVisit => Idle end) (match k with KFree => false | KVisit => true end) ev)
+                   (match k with KFree => FrR s | KVisit => Idle end) (match k with KFree => false | KVisit => true end) ev)
+    | None => None
+    end
+  | FrR s =>
+    match nth_error (segs st) s with
+    | Some g => Some (keep st th (FrL s) false [(t, LTid s, ztid g, ztid g)])
     | None => None
     end
   | FrL s =>
@@ -462,7 +470,7 @@ Fixpoint run_trace (st : state) (sched : list nat) : list event :=
 (* the part of a trace that a real step log of the scheduler harness shows: accesses to thread_id and to the
    abandoned mark (bit or list membership) *)
 Definition is_adoption_loc (l : loc) : bool :=
-  match l with LTid _ | LBit _ | LList _ => true | _ => false end.
+  match l with LTid _ | LTidPlain _ | LBit _ | LList _ => true | _ => false end.
 Definition adoption_trace (st : state) (sched : list nat) : list event :=
   filter (fun e => is_adoption_loc (snd (fst (fst e)))) (run_trace st sched).
 
@@ -496,7 +504,7 @@ Definition holds (p : pc) : option nat :=
   end.
 (* the segment a pc works on as its owner (thread_id = me, nobody else may touch it) *)
 Definition owns (p : pc) : option nat :=
-  match p with Ab1 s | FrL s | Rc2 s _ => Some s | _ => None end.
+  match p with Ab1 s | FrR s | FrL s | Rc2 s _ => Some s | _ => None end.
 (* pcs that hold the segment while thread_id is still 0 *)
 Definition holds_abandoned (p : pc) : bool :=
   match p with
@@ -513,7 +521,7 @@ Definition pc_seg (p : pc) : option nat :=
   match p with
   | Idle | Vo1 _ _ | Vo2 _ _ | Vo3 _ None _ => None
   | Ab1 s | Ab2 s | Ab3 s | Ab4a s | Ab4o s | Ab4p s | Ab5o s | Fr1 s _ | Fr2 s _ | Fr3 s | Fr3o s | Fr3p s | Fr3q s | Fr5o s _
-  | Fr4 s | Fr4b s | Rc1 s _ | Rc2 s _ | FrL s | FrP s | Vs0 _ s _ | Vs1 _ s _ | VsR s | Vs2 _ s _ | Hd0 _ s _ | Vo2c _ s _
+  | Fr4 s | Fr4b s | Rc1 s _ | Rc2 s _ | FrR s | FrL s | FrP s | Vs0 _ s _ | Vs1 _ s _ | VsR s | Vs2 _ s _ | Hd0 _ s _ | Vo2c _ s _
   | Vo3 _ (Some s) _ => Some s
   end.
 
